@@ -20,11 +20,11 @@ Consume(e) == l <= Len(TraceLog) /\ Ev.ev = e /\ l' = l + 1
 Changed(w) == {p \in ToSet(Ev.assoc) : cur[w][p] # Ev.status[p]}
 \* each return lists exactly the peers whose status changed; a negative return only after cancellation
 RetOK(r, now) == IF r.ok THEN ToSet(r.upd) = Changed(r.w) /\ Changed(r.w) # {}
-                 ELSE now /\ r.upd = <<>>
-MReset == Consume("reset") /\ cur' = <<>> /\ cancelled' = FALSE /\ started' = FALSE
+                 ELSE r.w \in now /\ r.upd = <<>>
+MReset == Consume("reset") /\ cur' = <<>> /\ cancelled' = {} /\ started' = FALSE
 MCfg == Consume("cfg") /\ UNCHANGED <<cur, cancelled, started>>
 MStep == /\ Consume("step")
-         /\ LET now == cancelled \/ (Ev.t = "cancel" /\ Ev.from = "c_cancel" /\ Ev.ok) IN
+         /\ LET now == IF Ev.t = "cancel" /\ Ev.from = "c_cancel" /\ Ev.ok THEN cancelled \cup ToSet(Ev.ctargets) ELSE cancelled IN
               /\ cancelled' = now
               /\ IF ~started THEN Ev.ret = <<>>          \* nothing can return before the first step
                  ELSE \A i \in DOMAIN Ev.ret : RetOK(Ev.ret[i], now)
@@ -36,12 +36,12 @@ MFinal == /\ Consume("final")
           /\ ~Ev.livelock
           /\ \A i \in DOMAIN Ev.parked :
                 LET w == Ev.parked[i] IN
-                  /\ ~cancelled
+                  /\ w \notin cancelled
                   /\ w \in DOMAIN Ev.cur
                   /\ \A p \in ToSet(Ev.assoc) : Ev.cur[w][p] = Ev.status[p]
           /\ UNCHANGED <<cur, cancelled, started>>
 MNext == MReset \/ MCfg \/ MStep \/ MFinal
-MInit == l = 1 /\ cur = <<>> /\ started = FALSE /\ cancelled = FALSE /\ TLCSet(42, 1)
+MInit == l = 1 /\ cur = <<>> /\ started = FALSE /\ cancelled = {} /\ TLCSet(42, 1)
 MSpec == MInit /\ [][MNext]_mvars
 Mark == TLCSet(42, IF l > TLCGet(42) THEN l ELSE TLCGet(42))
 Accepted == LET hw == TLCGet(42) IN
